@@ -250,9 +250,28 @@ def rule_gc(A: Analysis, rep):
                 if A.single_def_value(fi, n_) is not None and norm(A.single_def_value(fi, n_)) == "Context.from_cwd()"]
         stop = set(ctxv) | {mvar}
         ctxn = ctxv[0] if ctxv else "ctx"
+        set_iter = set_elt = set_tgt = None
         if isinstance(sv, ast.SetComp) and len(sv.generators) == 1 and not sv.generators[0].ifs:
-            lst = A.xtext(sv.generators[0].iter, fi, stop=stop)
-            elt_ok = norm(sv.elt) == "(identifier, version.timestamp)" and norm(sv.generators[0].target) == "(identifier, version)"
+            set_iter, set_elt, set_tgt = sv.generators[0].iter, sv.elt, sv.generators[0].target
+        elif sv is not None and norm(sv) in ("set()", "set([])"):
+            # the loop form: `S = set(); for T in IT: S.add(E)` with the add unconditional in every iteration
+            adds = [n for n in g.nodes if n.kind == "stmt" and isinstance(n.ast, ast.Expr) and isinstance(n.ast.value, ast.Call)
+                    and norm(n.ast.value.func) == "%s.add" % setname and len(n.ast.value.args) == 1]
+            muts = [x for x in walk_local(fi.node) if isinstance(x, ast.Call) and isinstance(x.func, ast.Attribute) and norm(x.func.value) == setname
+                    and x.func.attr in ("add", "update", "discard", "remove", "pop", "clear", "difference_update", "intersection_update")]
+            if len(adds) == 1 and len(muts) == 1 and isinstance(getattr(adds[0].ast, "_parent", None), ast.For):
+                lp_ = adds[0].ast._parent
+                h_ = [n for n in g.nodes if n.kind == "for" and n.ast is lp_]
+                b_ = [x for (x, l_) in h_[0].succ if l_ == "T"] if h_ else []
+                back_ = [n for n in g.nodes if any(m is h_[0] and is_back(l_) for m, l_ in n.succ)] if h_ else []
+                if b_ and not lp_.orelse and all(g.all_paths_pass(b_[0], e_, adds, skip_labels=is_exc) for e_ in back_) \
+                        and not any(isinstance(x, (ast.Break, ast.Return)) for x in walk_local(lp_)) \
+                        and g.all_paths_pass(g.entry, ap, h_, skip_labels=is_exc) and id(lp_) not in {id(x) for x in ast.walk(w.loop)}:
+                    set_iter, set_elt, set_tgt = lp_.iter, adds[0].ast.value.args[0], lp_.target
+        if set_iter is not None:
+            lst = A.xtext(set_iter, fi, stop=stop)
+            tg_names = [norm(x) for x in set_tgt.elts] if isinstance(set_tgt, ast.Tuple) and len(set_tgt.elts) == 2 else None
+            elt_ok = tg_names is not None and norm(set_elt) == "(%s, %s.timestamp)" % (tg_names[0], tg_names[1])
             ok_set = lst.endswith(".version_index.get_all_versions()") and elt_ok
         idv = A.single_def_value(fi, tup.elts[0].id) if isinstance(tup.elts[0], ast.Name) else tup.elts[0]
         tsv = A.single_def_value(fi, tup.elts[1].id) if isinstance(tup.elts[1], ast.Name) else tup.elts[1]
@@ -522,7 +541,8 @@ def rule_cwd(A: Analysis, rep):
     # get_working_path / project_root fields
     gw = A.fn("task_types.base.TaskType.get_working_path")
     r = [x for x in walk_local(gw.node) if isinstance(x, ast.Return)]
-    rep.check(len(r) == 1 and norm(r[0].value) == "pathlib.Path(%s.project_root, self._identifier.path)" % gw.params[1], "CWD4", "task cwd = root / identifier.path", gw.node,
+    from ..analysis import pathparts
+    rep.check(len(r) == 1 and pathparts(A.expand(r[0].value, gw, stop=[gw.params[1]])) == ["%s.project_root" % gw.params[1], "self._identifier.path"], "CWD4", "task cwd = root / identifier.path", gw.node,
               "", "get_working_path is `%s`" % (norm(r[0].value) if r else "?"))
     ci = A.fn("context.Context.__init__")
     st = {norm(s.targets[0]): norm(s.value) for s in walk_local(ci.node) if isinstance(s, ast.Assign) and isinstance(s.targets[0], ast.Attribute)}
